@@ -26,8 +26,12 @@ def main():
             res['apply_err'] = a.stderr[-300:]
         d1 = sh('timeout 120 /venv/bin/python %s' % demo, env=env, cwd='/tmp')
         res['demo_mut'] = d1.returncode
-        c = sh('timeout 600 /venv/bin/python -m py_compile $(git -C %s diff --name-only | grep "\\.py$" | sed "s#^#%s/#")' % (wt, wt))
-        res['compiles'] = c.returncode == 0
+        pyfiles = [l for l in sh('git -C %s diff --name-only' % wt).stdout.split() if l.endswith('.py')]
+        if pyfiles:
+            c = sh('timeout 600 /venv/bin/python -m py_compile ' + ' '.join('%s/%s' % (wt, f) for f in pyfiles))
+            res['compiles'] = c.returncode == 0
+        else:
+            res['compiles'] = True      # template-only change
         if suite:
             t = sh('timeout 1500 /venv/bin/python /verif/tools/baseline_check.py %s' % wt, env=env)
             res['suite'] = t.stdout.strip().splitlines()[0] if t.stdout.strip() else t.stderr[-200:]
